@@ -4,29 +4,34 @@ oracles and the invariants on every case and prints verdict lines.
 -/
 import Daac.Driver.Checks
 import Daac.Driver.CliCheck
+import Daac.Driver.SynthCheck
 open Daac Daac.Driver
 
-partial def loop (h : IO.FS.Stream) (out : IO.FS.Stream) (cur : Case) (env : Env) (cli : CliCase := {}) (ncli : Nat := 0) : IO (Env × Nat) := do
+partial def loop (h : IO.FS.Stream) (out : IO.FS.Stream) (cur : Case) (env : Env) (cli : CliCase := {}) (ncli : Nat := 0) (syn : SynCase := {}) : IO (Env × Nat) := do
   let line ← h.getLine
   if line.isEmpty then return (env, ncli)
   let line := line.trimAsciiEnd.toString
-  if line.isEmpty then loop h out cur env cli ncli else
+  if line.isEmpty then loop h out cur env cli ncli syn else
   let toks := line.splitOn " "
   match toks with
   | ["END"] =>
     let (env', lines) := checkCase env cur
     for l in lines do out.putStrLn l
-    loop h out {} env' cli ncli
+    loop h out {} env' cli ncli syn
+  | ["SYEND"] =>
+    for l in checkSyn syn do out.putStrLn l
+    loop h out cur { env with cases := env.cases + 1 } cli ncli {}
   | ["XEND"] =>
     for l in checkCli cli do out.putStrLn l
-    loop h out cur env {} (ncli + 1)
+    loop h out cur env {} (ncli + 1) syn
   | t :: _ =>
-    if t.startsWith "X" then loop h out cur env (addCliLine cli toks) ncli
+    if t.startsWith "SY" then loop h out cur env cli ncli (addSynLine syn toks)
+    else if t.startsWith "X" then loop h out cur env (addCliLine cli toks) ncli syn
     else if t == "ERR" then do
       out.putStrLn s!"CORR suite=K-harness case={cur.id} {line}"
-      loop h out cur env cli ncli
+      loop h out cur env cli ncli syn
     else loop h out (addLine cur toks) env cli ncli
-  | [] => loop h out cur env cli ncli
+  | [] => loop h out cur env cli ncli syn
 
 def main : IO UInt32 := do
   let stdin ← IO.getStdin
